@@ -11,7 +11,7 @@ import itertools
 SUPPORTS_REPLAY = True
 SHARDS = {'quick': 16, 'thorough': 64}
 TIMEOUT = {'quick': 900, 'thorough': 5400}
-MUST_HIT = ['OrderedSetInv', 'ListModel', 'icontract.OrderedSetInv', 'Operand.binary-operand-with-repeats']
+MUST_HIT = ['OrderedSetInv', 'ListModel', 'icontract.OrderedSetInv', 'Operand.binary-operand-with-repeats', 'Operand.one-shot-iterator-operand']
 MUST_REACH = ['xtuml/tools.py:OrderedSet.add', 'xtuml/tools.py:OrderedSet.discard',
               'xtuml/tools.py:OrderedSet.pop', 'xtuml/tools.py:OrderedSet.__eq__',
               'xtuml/tools.py:OrderedSet.__reversed__', 'xtuml/meta.py:QuerySet.last']
@@ -61,6 +61,20 @@ class Mismatch(Exception):
         Exception.__init__(self, what)
         self.key = key
         self.what = what
+
+
+def one_shot(items, n):
+    '''an operand that can be iterated once only: a list iterator, a generator, a reversed view or a map'''
+    HITS['one-shot-iterator-operand'] = HITS.get('one-shot-iterator-operand', 0) + 1
+    items = list(items)
+    k = n % 4
+    if k == 0:
+        return iter(items)
+    if k == 1:
+        return (x for x in items)
+    if k == 2:
+        return reversed(items[::-1])
+    return map(lambda x: x, items)
 
 
 def invariant(s):
@@ -134,17 +148,17 @@ def apply(s, model, op, cls):
         s.clear()
         model = []
     elif name == 'ior':
-        s |= cls(op[1]) if len(op[1]) % 2 else list(op[1])
+        s |= one_shot(op[1], len(model)) if len(model) % 3 == 2 else (cls(op[1]) if len(op[1]) % 2 else list(op[1]))
         model = model + [x for i, x in enumerate(op[1])
                          if x not in model and x not in op[1][:i]]
     elif name == 'iand':
-        s &= (list(op[1]) if len(op[1]) == 3 else set(op[1]))
+        s &= one_shot(op[1], len(model)) if len(model) % 3 == 2 else (list(op[1]) if len(op[1]) == 3 else set(op[1]))
         model = [x for x in model if x in op[1]]
     elif name == 'isub':
-        s -= (list(op[1]) if len(op[1]) == 3 else cls(op[1]))
+        s -= one_shot(op[1], len(model)) if len(model) % 3 == 2 else (list(op[1]) if len(op[1]) == 3 else cls(op[1]))
         model = [x for x in model if x not in op[1]]
     elif name == 'ixor':
-        s ^= list(op[1])
+        s ^= one_shot(op[1], len(model)) if len(model) % 3 == 2 else list(op[1])
         want = set(model) ^ set(op[1])
         if set(s) != want:
             raise Mismatch('ixor/elements', '^= %r on %r gave %r' % (op[1], model, list(s)))
@@ -186,6 +200,13 @@ def apply(s, model, op, cls):
             raise Mismatch('algebra/operand-changed', '%s changed an operand' % name)
         if not isinstance(r, cls):
             raise Mismatch('algebra/type', '%s returned a %s' % (name, type(r).__name__))
+        # the other operand may be any iterable, also one that can be walked only once
+        import operator
+        fn = {'or': operator.or_, 'and': operator.and_, 'sub': operator.sub, 'xor': operator.xor}[name]
+        r2 = fn(s, one_shot(other_before, len(before) + len(op[1])))
+        if set(r2) != want or len(r2) != len(want) or list(s) != before:
+            raise Mismatch('algebra/' + name, '%r %s <one-shot iterator over %r> gave %r'
+                           % (model, name, other_before, list(r2)))
         bad = invariant(r)
         if bad:
             raise Mismatch('invariant', 'result of %s: %s' % (name, bad))
